@@ -39,18 +39,43 @@ def c : Codec := sjisSub
 
 /-! ### C06 -/
 
-def modelRt (f : TextFormat) (e : Endian) (title : Str) (entries : List (Str × Str)) : String :=
+/-- One damage item of a `sec` case applied to an image (see `harness/src/fam/text.rs::damage`). -/
+def damage (bytes : Bytes) (item : List String) (e : Endian) : Bytes :=
+  match item with
+  | ["tr", k] => bytes.take (bytes.length - k.toNat!)
+  | ["w", pos, v] =>
+    let pos := pos.toNat!
+    if pos + 4 ≤ bytes.length then BinArchive.patch bytes pos (e.enc 4 v.toNat!) else bytes
+  | ["b", pos, v] =>
+    let pos := pos.toNat!
+    if pos < bytes.length then BinArchive.patch bytes pos [UInt8.ofNat v.toNat!] else bytes
+  | ["be", k, v] =>
+    let k := k.toNat!
+    if k < bytes.length then BinArchive.patch bytes (bytes.length - 1 - k) [UInt8.ofNat v.toNat!] else bytes
+  | _ => bytes
+
+/-- `rt`, and `sec` when `dmg` is given: the model is pure, so the parses of the damaged copies
+cannot influence the round trip; their outcomes (ok / err) are reported after it. -/
+def modelRt (f : TextFormat) (e : Endian) (title : Str) (entries : List (Str × Str))
+    (dmg : Option (List (List String)) := none) : String :=
   let t := entries.foldl (fun t p => t.setMessage p.1 p.2) ((TextArchive.new f e).setTitle title)
   match t.serialize c with
   | .ok bytes =>
+    let pre := match dmg with
+      | none => ""
+      | some items =>
+        let r := String.join (items.map (fun it =>
+          match TextArchive.fromBytes c (damage bytes it e) f e with
+          | .ok _ => "o" | .err _ => "e" | .panic => "p"))
+        " pre=" ++ (if r.isEmpty then "-" else r)
     let head := "ok stored=" ++ pairsStr t.entries ++ " bytes=" ++ hexOfBytes bytes
     match TextArchive.fromBytes c bytes f e with
     | .ok p => head ++ " parsed title=" ++ hexOfBytes p.title ++ " entries=" ++ pairsStr p.entries
         ++ " reser=" ++ (match p.serialize c with
           | .ok b2 => if b2 == bytes then "same" else "diff"
           | .err er => "err:" ++ er.name
-          | .panic => "panic")
-    | .err er => head ++ " parse-err " ++ er.name
+          | .panic => "panic") ++ pre
+    | .err er => head ++ " parse-err " ++ er.name ++ pre
     | .panic => "panic"
   | .err er => "err " ++ er.name
   | .panic => "panic"
@@ -239,6 +264,9 @@ structure St where
   hist : List Spec.TextMap.Op := []
   /-- entries the implementation reported after the previous call of this case -/
   prev : List (Bytes × Bytes) := []
+  /-- number of leading `hist` entries that stand for the content the archive was constructed
+  with (`from_bytes` / `from_archive`); they do not count as calls for the dirty flag -/
+  base : Nat := 0
 
 def retUnit := "unit"
 def retOpt : Option Str → String
@@ -263,7 +291,8 @@ open Spec.TextMap in
 (`hBefore` = history before this call, `op` = this call, `expectRet` = the return value the
 specification demands, `unchanged` = the call must leave the entries as they were). -/
 def oracleC07 (hBefore : List Op) (op : Option Op) (expectRet : Option String) (unchanged : Bool)
-    (prev : List (Bytes × Bytes)) (impl : List String) : String × List (Bytes × Bytes) :=
+    (prev : List (Bytes × Bytes)) (impl : List String) (base : Nat := 0) :
+    String × List (Bytes × Bytes) :=
   if impl.getD 1 "" == "panic" then ("FAIL panic", prev) else
   let h := match op with | some o => hBefore ++ [o] | none => hBefore
   match field impl "r", (field impl "title").bind bytesOfHex, field impl "dirty",
@@ -275,8 +304,8 @@ def oracleC07 (hBefore : List Op) (op : Option Op) (expectRet : Option String) (
       else if !triples.all (fun t => valueOf h t.1 == some t.2.1) then "FAIL stored value is not the unescaped last message set"
       else if !triples.all (fun t => t.2.2 == lookupOf h t.1) then "FAIL lookup is not the escaped stored value"
       else if title != titleOf h then "FAIL title is not the last title set"
-      else if anySet h && dirty != "1" then "FAIL dirty flag clear after a set"
-      else if h.isEmpty && dirty != "0" then "FAIL dirty flag set on a new archive"
+      else if anySet (h.drop base) && dirty != "1" then "FAIL dirty flag clear after a set"
+      else if (h.drop base).isEmpty && dirty != "0" then "FAIL dirty flag set on a new or parsed archive"
       else if unchanged && entries != prev then "FAIL storing a looked-up message back changed the entries"
       else match expectRet with
         | some x => if r == x then "ok" else "FAIL return value of has_message / get_message"
@@ -295,13 +324,41 @@ def stepC07 (st : St) (cf impl : List String) : St × String × String :=
       let (v, prev) := oracleC07 [] none none false [] impl
       ({ id := id, model := t, hist := [], prev := prev }, stateLine t retUnit, v)
     | _, _ => bad
+  | [_, ctor, f, e, title, entries] =>
+    -- the parsing constructors: `from_bytes`, or `BinArchive::from_bytes` + `from_archive`
+    match fmtOf f, endianOf e, bytesOfHex title, parsePairs entries with
+    | some f, some e, some title, some entries =>
+      if ctor != "frombytes" && ctor != "fromarchive" then bad else
+      let t0 := entries.foldl (fun t p => t.setMessage p.1 p.2) ((TextArchive.new f e).setTitle title)
+      let parsed : Res TextArchive :=
+        match t0.serialize c with
+        | .ok bytes =>
+          if ctor == "frombytes" then TextArchive.fromBytes c bytes f e
+          else match BinArchive.parse c e bytes with
+            | .ok bin => TextArchive.fromArchive c bin f e
+            | .err er => .err er
+            | .panic => .panic
+        | .err er => .err er
+        | .panic => .panic
+      -- specification side: the content is what a history of these calls produces, but a parsed
+      -- archive is not dirty (the legacy format stores no title)
+      let hist : List Spec.TextMap.Op :=
+        (if f == .unicode then [.title title] else []) ++ entries.map (fun p => .set p.1 p.2)
+      match parsed with
+      | .ok t =>
+        let (v, prev) := oracleC07 hist none none false [] impl hist.length
+        ({ id := id, model := t, hist := hist, prev := prev, base := hist.length }, stateLine t retUnit, v)
+      | .err _ => ({ st with id := "" }, "err",
+          if impl.getD 1 "" == "panic" then "FAIL panic" else "ok skip (construction failed)")
+      | .panic => ({ st with id := "" }, "panic", "FAIL panic")
+    | _, _, _, _ => bad
   | _ =>
     if st.id != id then bad else
     let go (t' : TextArchive) (ret : String) (ops : List Spec.TextMap.Op) (expectRet : Option String)
         (unchanged : Bool) :=
       -- `ops`: the spec-level calls this line stands for
       let hB := st.hist ++ ops.dropLast
-      let (v, prev) := oracleC07 hB ops.getLast? expectRet unchanged st.prev impl
+      let (v, prev) := oracleC07 hB ops.getLast? expectRet unchanged st.prev impl st.base
       ({ st with model := t', hist := st.hist ++ ops, prev := prev }, stateLine t' ret, v)
     match cf with
     | [_, "set", k, m] =>
@@ -342,6 +399,12 @@ def family : Family where
         if subj.any hasLossy then
           (st, String.intercalate " " (impl.drop 1), "ok skip (lossy Shift-JIS code point)")
         else (st, modelRt f e title entries, oracleRt f e title entries impl)
+      | _, _, _, _ => (st, "bad-case", "FAIL bad-case")
+    | [_, "sec", f, e, title, entries, dmg] =>
+      match fmtOf f, endianOf e, bytesOfHex title, parsePairs entries with
+      | some f, some e, some title, some entries =>
+        -- "second use": the ordinary round-trip oracle, on a round trip that follows failing parses
+        (st, modelRt f e title entries (some (parseList dmg)), oracleRt f e title entries impl)
       | _, _, _, _ => (st, "bad-case", "FAIL bad-case")
     | [_, "rtd", f, e, title, entries] =>
       match fmtOf f, endianOf e, bytesOfHex title, parsePairs entries with
